@@ -672,3 +672,22 @@ def shrink_candidates(case):
 
 def setup_worker():
     twin.warm(_gen_case, lambda c: serve_and_check(c, setup_app(c), ''), n=150)
+
+
+TWIN_SWEEPS = {'quick': 16, 'thorough': 400}
+
+
+def sweep_units(tier, root):
+    # exhaustive single pre-emption: one unit = one small program x every traced step of its solo run
+    return [{'twin_sweep': i, 'seed': (root * 2654435761 + i * 40503) & 0xffffffff} for i in range(TWIN_SWEEPS[tier])]
+
+
+def expand_unit(u):
+    rng = random.Random(u['seed'])
+    inner = _gen_case(rng, 'quick')
+    while any(k == 'cycle' for _, k in inner['error_handlers']):
+        inner = _gen_case(rng, 'quick')
+    box = []
+    kw = dict(shared_bodyreq=False, before=lambda: (box.clear(), box.append(setup_app(inner))),
+              step_cap=1_500_000, cap_violation='C03:no-answer')
+    yield from twin.sweep(lambda c, i: serve_and_check(c, box[0], 'Zz' * i), inner, **kw)
